@@ -205,4 +205,34 @@ Proof.
       rewrite Forall_forall in Hfalse. specialize (Hfalse _ Hb). discriminate.
 Qed.
 
+(* ------------------------------------------------------------------ C03, tied to the from-scratch conditions *)
+(* the rule whose actions run has maximal salience among ALL active rules whose condition, evaluated from scratch on the
+   facts of that moment, is true *)
+Definition C03_semantic_statement : Prop :=
+  forall fuel (u : estate) sf recs o,
+    es_fx u = [] ->
+    impl_execute fuel c order u es = (sf, recs, o) ->
+    forall pre r post, recs = (pre ++ r :: post)%list -> cr_started r = true ->
+      forall n k, cr_exec r = Some (n, k) ->
+        exists e, In e es /\ e_key e = k /\ active pre e = true /\
+          when_from_scratch (facts_after (es_facts u) pre) k = CTrue /\
+          forall e', In e' es -> active pre e' = true ->
+            when_from_scratch (facts_after (es_facts u) pre) (e_key e') = CTrue -> e_sal e' <= e_sal e.
+
+Theorem C03_semantic_proved : C03_semantic_statement.
+Proof.
+  intros fuel u sf recs o Hfx H pre r post E Hst n k Hk.
+  destruct (C01_proved fuel u sf recs o Hfx H) as [H1 _].
+  destruct (H1 pre r post E n k Hk) as [(e0 & He0 & Hk0 & Ha0) Hc].
+  destruct (C02_proved fuel u sf recs o Hfx H) as [H2 _].
+  pose proof (C03_proved estate _ _ reset_all es keys_nodup c order order_perm fuel u sf recs o H pre r post E) as (H3 & _ & _).
+  destruct (H3 n k Hk) as (e & He & Hke & Hin & Hmax).
+  pose proof (C06_proved estate _ _ reset_all es keys_nodup c order order_perm max_nonneg fuel u sf recs o H)
+    as (_ & _ & _ & _ & _ & Hd).
+  destruct (Hd pre r post E) as (_ & _ & Hex & _ & _ & _). destruct (Hex n k Hk) as [Hn _].
+  assert (e0 = e) by (eapply key_unique; eauto; congruence). subst e0.
+  exists e. split; [exact He|]. split; [exact Hke|]. split; [exact Ha0|]. split; [exact Hc|].
+  intros e' He' Ha' Hc'. apply Hmax; auto. rewrite Hn. apply (H2 pre r post E Hst e' He' Ha' Hc').
+Qed.
+
 End RT.
